@@ -287,6 +287,12 @@ func Supervise(o SuperOpts) int {
 			casePath := filepath.Join(outDir, fmt.Sprintf("b%03d-trace.case", i))
 			cb, err := os.ReadFile(casePath)
 			if err != nil || len(cb) == 0 {
+				if len(b.Strace) > 0 {
+					// strace (ptrace) may be unavailable where the check runs: the batch is inconclusive, not broken
+					agg.Inconclusive++
+					agg.InconcNotes = append(agg.InconcNotes, fmt.Sprintf("batch %s could not run under strace (fault injection unavailable?): %s", b.Name, firstLines(oc2.logTail, 4)))
+					return
+				}
 				infra = append(infra, fmt.Sprintf("batch %s died twice before any case was traced: %s", b.Name, oc2.logTail))
 				return
 			}
